@@ -45,6 +45,8 @@ var (
 	ErrInt64UnderflowsUint64 = errors.New("int64 underflows uint64")
 	// ErrFloat64UnderflowsUint64 is returned if when converting an float6464 to a uint64 underflow uint64
 	ErrFloat64UnderflowsUint64 = errors.New("float64 underflows uint64")
+	// ErrFloat64OverflowsUint64 is returned if when converting a float64 to a uint64 overflow uint64 or the float64 is not a number
+	ErrFloat64OverflowsUint64 = errors.New("float64 overflows uint64")
 	// ErrDivideByZero is returned if a coin amount is distributed over zero recipients
 	ErrDivideByZero = errors.New("division by zero")
 )
@@ -199,6 +201,11 @@ func Int64ToCoin(a int64) (Coin, error) {
 func Float64ToCoin(a float64) (Coin, error) {
 	if a < 0 {
 		return 0, ErrFloat64UnderflowsUint64
+	}
+	// NaN, +Inf and values of 2^64 and above have no uint64 value: the conversion
+	// below would yield an arbitrary amount
+	if a != a || a >= math.MaxUint64 {
+		return 0, ErrFloat64OverflowsUint64
 	}
 	return Coin(a), nil
 }
